@@ -483,6 +483,26 @@ class Duration(timedelta):
 
         return NotImplemented
 
+    def __reduce__(self) -> tuple[type[Self], tuple[float, ...]]:
+        signature = getattr(self, "_signature", None)
+
+        if signature is None:
+            return super().__reduce__()  # type: ignore[return-value]
+
+        # Rebuild from the constructor arguments so that years, months
+        # and weeks are not folded into the native days
+        return self.__class__, (
+            signature["days"],
+            signature["seconds"],
+            signature["microseconds"],
+            0,
+            signature["minutes"],
+            signature["hours"],
+            signature["weeks"],
+            signature["years"],
+            signature["months"],
+        )
+
     def __deepcopy__(self, _: dict[int, Self]) -> Self:
         return self.__class__(
             weeks=self.weeks,
